@@ -263,4 +263,26 @@ Section ReplicationDecider.
         apply filter_upd_spec in Hrc. destruct Hrc as [Hrc _].
         exists rc. rewrite <- Hid. auto.
   Qed.
+  (* ---- the same two facts for m = snapshot of a sender si, in the sender's terms *)
+  Corollary snapshot_supersedes_active cfg (si sj sj' : dstate) (n : note) (r : run) p :
+    Inv E cfg (d_runs sj) -> remote_apply cfg sj (snapshot si) = (sj', n) ->
+    In r (rt_all (d_runs si)) -> get_pattern cfg (r_ph r) (p_name (r_pat r)) = Some p -> p_single p = false ->
+    In (r_id r) (ids_of (d_cc si)) \/ In (r_id r) (ids_of (d_ch si)) \/
+    (c_maxcache cfg <> O /\ remembered E sj (r_id r) = true) \/
+    holds_active (d_runs sj') (ser r).
+  Proof.
+    intros Hinv H Hin Hg Hns.
+    apply (message_supersedes_active cfg sj sj' (snapshot si) n (ser r) p Hinv H); [|exact Hg|exact Hns].
+    unfold snapshot. simpl. apply in_map. exact Hin.
+  Qed.
+
+  Corollary snapshot_supersedes_finished cfg (si sj sj' : dstate) (n : note) :
+    no_singleton cfg -> c_maxcache cfg <> O ->
+    (length (d_cc sj) + length (d_cc si) <= c_maxcache cfg)%nat ->
+    (length (d_ch sj) + length (d_ch si) <= c_maxcache cfg)%nat ->
+    remote_apply cfg sj (snapshot si) = (sj', n) ->
+    (forall rc, In rc (d_cc si) -> zmem (s_id rc) (ids_of (d_cc sj')) = true) /\
+    (forall rc, In rc (d_ch si) -> remembered E sj' (s_id rc) = true) /\
+    (forall id, remembered E sj id = true -> remembered E sj' id = true).
+  Proof. intros Hns Hmc Hc Hh H. exact (message_supersedes_finished cfg sj sj' (snapshot si) n Hns Hmc Hc Hh H). Qed.
 End ReplicationDecider.
